@@ -3,6 +3,7 @@ package props
 import (
 	"errors"
 	"fmt"
+	"io/fs"
 	"strings"
 
 	"github.com/avfs/avfs"
@@ -137,11 +138,16 @@ type c12Plan struct {
 	Kind string     // "none", "fail", "readonly", "record"
 	Fn   avfs.FnVFS // fail: primitive
 	K    int        // fail: k-th invocation (1-based)
+	Err  int        // fail: which error is injected (index into c12Errors)
 }
+
+// c12Errors: what a failure function may return - a private error, and errors of the classes the library itself
+// tests for (a composite must not mistake an injected error for a condition it knows how to handle).
+var c12Errors = []error{errInjected, avfs.ErrNoSuchFileOrDir, avfs.ErrPermDenied, avfs.ErrFileExists} //nolint:gochecknoglobals // fault domain.
 
 func (p c12Plan) String() string {
 	if p.Kind == "fail" {
-		return fmt.Sprintf("fail invocation %d of %s", p.K, p.Fn)
+		return fmt.Sprintf("fail invocation %d of %s with %q", p.K, p.Fn, c12Errors[p.Err%len(c12Errors)])
 	}
 
 	return p.Kind
@@ -177,7 +183,7 @@ func c12Exec(kind string, cfg *concCfg, calls []c12Call, plan c12Plan) c12Result
 				firedNow = true
 				r.fired = true
 
-				return errInjected
+				return c12Errors[plan.Err%len(c12Errors)]
 			}
 
 			return nil
@@ -280,11 +286,15 @@ func c12Exec(kind string, cfg *concCfg, calls []c12Call, plan c12Plan) c12Result
 					return r // e.g. the Close of a read-only composite: its error is dropped as in package os
 				}
 
+				if (c.Op.K == "MkdirTemp" || c.Op.K == "CreateTemp") && errors.Is(c12Errors[plan.Err%len(c12Errors)], fs.ErrExist) {
+					return r // "exists" is the one answer these two retry on, with another name (as package os does)
+				}
+
 				return viol(i, c, "fault-swallowed", c.Op.K+" succeeded although "+plan.Fn.String()+" was made to fail", got.String())
 			}
 
 			if !isComposite(c.Op.K) {
-				if got.Err != "other:"+errInjected.Error() {
+				if got.Err != fsx.ErrClass(c12Errors[plan.Err%len(c12Errors)]) {
 					return viol(i, c, "wrong-error", c.Op.K+" did not return exactly the injected error", got.String())
 				}
 
@@ -438,9 +448,12 @@ func (p C12) Run(c *sim.Ctx, t *sim.Tape) sim.RunResult {
 
 	var plans []c12Plan
 
+	// which error each plan injects: a rotation over the fault domain, started at a drawn point.
+	errBase := t.Int(len(c12Errors))
+
 	for _, fn := range rec.invoked {
 		counts[fn]++
-		plans = append(plans, c12Plan{Kind: "fail", Fn: fn, K: counts[fn]})
+		plans = append(plans, c12Plan{Kind: "fail", Fn: fn, K: counts[fn], Err: errBase + len(plans)})
 	}
 
 	fired := 0
